@@ -55,6 +55,7 @@ pub fn run(job: &Value, limit_s: f64) -> JobResult {
 /// Child side: dispatch on job["kind"].
 pub fn child_main(job: &Value) -> Value {
     match job["kind"].as_str() {
+        Some("c01chains") => crate::props::c01::job_chains(job),
         Some("c01big") => crate::props::c01::job(job),
         Some("c02big") => crate::props::c02::job(job),
         Some("c15big") => crate::props::c15::job(job),
